@@ -9,6 +9,8 @@ CONSTANTS
   UncOffs = {}
   UncPrecs = {}
   Units = {}
+  Convs = {}
+  UncSrcs = {"arg"}
   RomanMax = 0
 INVARIANT Verdict
 INVARIANT ModelNumberDenotes
